@@ -173,16 +173,19 @@ theorem findFirst_is_the_specification_up_to_ties (s : Spec.State) (σ : KVS) (h
 
 end CV.Props.C08
 
+-- SOURCE-TEXT-BEGIN (generated by tools/mk_source_theorems.py; do not edit by hand)
 namespace CV.Props.C08
 
-/-- (facts, regenerated from the source on every run) **The decision logic the model transcribes is the
-    decision logic of the current source**: the plan nodes behind sorting and windows (`buildQueryPlan`, `sortNode`, `skipLimitNode`, `compareDocuments`) and the query builders (`Skip`, `Limit`, `Sort`, `normalizeSortOptions`) — what `needSort`, `emit`, `collect`, `feed`, `sortDocs`, `compareDocuments` and `Model/QueryBuilder.lean` transcribe.  The text is the functions' bodies with comments and layout
-    removed.  Any edit of these functions breaks this theorem at build time; the check then searches
-    with the property's own oracles for a failing input (and reports `no-failing-input-found` if the
-    edit was harmless: the model then has to be re-validated against the new text). -/
+/-- (facts, regenerated from the source on every run) **The source text the model transcribes is the text of the
+    current source**: the bodies (comments and layout removed) of the 11 functions the model behind C08 was written from and
+    validated against.  Any edit of one of them breaks this theorem at build time; the check then searches with the
+    property's own oracles for a failing input, and reports `no-failing-input-found` if it finds none: the model then
+    has to be re-validated against the new text (and this block regenerated). -/
 theorem source_decision_logic : CV.Facts.logicC08 = [
   "clover..buildQueryPlan: { var inputNode inputNode var prevNode planNode itNode, isOutputSorted := tryToSelectIndex(q, indexes) if itNode == nil { itNode = &iterNode{ filter: q.Criteria(), collection: q.Collection(), } } inputNode = itNode prevNode = itNode if len(q.SortOptions()) > 0 && !isOutputSorted { nd := &sortNode{opts: q.SortOptions()} prevNode.SetNext(nd) prevNode = nd } if q.GetSkip() > 0 || q.GetLimit() >= 0 { nd := &skipLimitNode{skipped: 0, consumed: 0, skip: q.GetSkip(), limit: q.GetLimit()} prevNode.SetNext(nd) prevNode = nd } prevNode.SetNext(outputNode) return inputNode }", 
   "clover..compareDocuments: { for _, opt := range sortOpts { field := opt.Field direction := opt.Direction firstHas := first.Has(field) secondHas := second.Has(field) if !firstHas && secondHas { return -direction } if firstHas && !secondHas { return direction } if firstHas && secondHas { res := internal.Compare(first.Get(field), second.Get(field)) if res != 0 { return res * direction } } } return 0 }", 
+  "clover..execPlan: { if err := nd.Run(tx); err != nil { return err } for curr := nd.(planNode); curr != nil; curr = curr.NextNode() { if err := curr.Finish(); err != nil { return err } } return nil }", 
+  "clover.consumerNode.Callback: { return nd.consumer(doc) }", 
   "clover.skipLimitNode.Callback: { if nd.skipped < nd.skip { nd.skipped++ return nil } if nd.limit < 0 || (nd.limit >= 0 && nd.consumed < nd.limit) { nd.consumed++ return nd.CallNext(doc) } return internal.ErrStopIteration }", 
   "clover.sortNode.Callback: { if nd.docs == nil { nd.docs = make([]*d.Document, 0) } nd.docs = append(nd.docs, doc) return nil }", 
   "clover.sortNode.Finish: { if nd.docs != nil { sort.Slice(nd.docs, func(i, j int) bool { return compareDocuments(nd.docs[i], nd.docs[j], nd.opts) < 0 }) for _, doc := range nd.docs { if err := nd.CallNext(doc); err != nil { if errors.Is(err, internal.ErrStopIteration) { return nil } return err } } } return nil }", 
@@ -192,3 +195,4 @@ theorem source_decision_logic : CV.Facts.logicC08 = [
   "query.Query.Sort: { if len(opts) == 0 { opts = []SortOption{{Field: d.ObjectIdField, Direction: 1}} } else { opts = normalizeSortOptions(opts) } newQuery := q.copy() newQuery.sortOpts = opts return newQuery }"] := by rfl
 
 end CV.Props.C08
+-- SOURCE-TEXT-END
